@@ -222,45 +222,66 @@ class Region:
         prog = self.prog
         padt = prog.adts.get(PACKET)
 
-        def primary(starts, sym):
-            """switch edges on sym whose switch is the first one reached from `starts` (later switches on the
-            same value belong to drop elaboration)"""
-            es = self.edges_on_symbol(sym)
-            srcs = set(e[0][0] for e in es)
-            reach = self.g.reachable(starts, stop_at=srcs)
-            return [(e, c) for (e, c) in es if e[0] in reach]
+        def primary(starts, sym, classify):
+            """{kind: switch edges on sym that are the first to establish `kind` on a path from `starts`}: the value may be
+            inspected in stages (a helper sorts out one variant, the caller matches the rest), while a later switch that
+            re-tests what an earlier edge already decided belongs to drop elaboration. Decided on the abstract
+            reachability graph: an edge counts only if a state that had not yet passed an edge of its kind takes it."""
+            groups = {}
+            for (e, c) in self.edges_on_symbol(sym):
+                kind = classify(c)
+                if kind is not None:
+                    groups.setdefault(kind, set()).add(e)
+            arg_conds = getattr(self.eng, "arg_conds", {})
+            edge_conds = self.eng.edge_conds
+
+            def tests(c):
+                return c[0] in ("eq", "neq") and len(c[1][1]) == 1 and c[1][1][0][0] == sym
+
+            keep = {}
+            for kind, ge in groups.items():
+                def match(x, px, py, kind=kind, ge=ge):
+                    if (px, py) not in ge:
+                        return False
+                    conds = arg_conds.get((x, py)) if x is not None else None
+                    if conds is None:
+                        conds = edge_conds.get((px, py), ())
+                    return any(tests(c) and classify(c) == kind for c in conds)
+                keep[kind] = self.g.first_matching_edges(starts, match)
+            return keep
+
+        def res_kind(c):
+            if c[0] == "eq":
+                return "err" if c[2] == 1 else "ok"
+            if c[0] == "neq":
+                vals = set(c[2])       # otherwise-edge of a 2-valued discriminant
+                return "err" if vals == {0} else "ok" if vals == {1} else None
+            return None
+
+        allv = [prog.variant_discr(PACKET, i) for i in range(len(padt["variants"]))] if padt is not None else []
+
+        def pkt_kind(c):
+            if c[0] == "eq":
+                return ("pkt", variant_name(prog, PACKET, c[2]))
+            if c[0] == "neq":
+                return ("pkt-other", tuple(sorted(variant_name(prog, PACKET, v) for v in allv if v not in c[2])))
+            return None
 
         for n in self.recv_nodes():
             for ev in self.by_node[n]:
                 if ev.inlined:
                     continue
+                ok_targets = []
                 ds = self.result_discr_sym(ev)
                 if ds is not None:
-                    ok_targets = []
-                    for edge, c in primary([n], ds):
-                        kind = None
-                        if c[0] == "eq":
-                            kind = "err" if c[2] == 1 else "ok"
-                        elif c[0] == "neq":
-                            # otherwise-edge of a 2-valued discriminant
-                            vals = set(c[2])
-                            if vals == {0}:
-                                kind = "err"
-                            elif vals == {1}:
-                                kind = "ok"
-                        if kind is not None:
-                            out.setdefault(kind, set()).add(edge)
-                            if kind == "ok":
-                                ok_targets.append(edge[1])
+                    for kind, es in primary([n], ds, res_kind).items():
+                        out.setdefault(kind, set()).update(es)
+                        if kind == "ok":
+                            ok_targets += [e[1] for e in es]
                 ps = self.result_discr_sym(ev, (("v", 0), 0))
                 if ps is not None and padt is not None:
-                    allv = [prog.variant_discr(PACKET, i) for i in range(len(padt["variants"]))]
-                    for edge, c in primary(ok_targets or [n], ps):
-                        if c[0] == "eq":
-                            out.setdefault(("pkt", variant_name(prog, PACKET, c[2])), set()).add(edge)
-                        elif c[0] == "neq":
-                            rest = [v for v in allv if v not in c[2]]
-                            out.setdefault(("pkt-other", tuple(sorted(variant_name(prog, PACKET, v) for v in rest))), set()).add(edge)
+                    for kind, es in primary(ok_targets or [n], ps, pkt_kind).items():
+                        out.setdefault(kind, set()).update(es)
         return out
 
 
